@@ -292,9 +292,9 @@ Proof. intros [[[H _] _] _]. exact H. Qed.
 (* ================================================================================== *)
 (* 3. the building blocks                                                             *)
 (* ================================================================================== *)
-Lemma record_answer_frame n h e : frame n (record_answer n h e).
+Lemma record_answer_frame n k h e : frame n (record_answer n k h e).
 Proof.
-  unfold record_answer. destruct (List.find _ (n_origin_waiting n)) as [[[a b] o]|]; [|apply frame_refl].
+  unfold record_answer. destruct (List.find _ (n_origin_waiting n)) as [[[[k0 a] b] o]|]; [|apply frame_refl].
   apply frame_same; reflexivity.
 Qed.
 
@@ -820,28 +820,62 @@ Proof.
   apply List.filter_In in Hin. destruct Hin as [_ E]. cbn [fst] in E. rewrite String.eqb_refl in E. discriminate.
 Qed.
 
-(* drop_origin touches only the origin table, which afterwards has no entry for the pair *)
-Lemma drop_origin_none n hbh e2e h e x :
-  List.In (h, e, x) (n_origin_waiting (drop_origin n hbh e2e)) -> ~ (h = hbh /\ e = e2e).
+(* drop_origin touches only the origin table, which afterwards has no entry for the connection's pair *)
+Lemma drop_origin_none n cid hbh e2e k h e x :
+  List.In (k, h, e, x) (n_origin_waiting (drop_origin n cid hbh e2e)) -> ~ (k = cid /\ h = hbh /\ e = e2e).
 Proof.
-  unfold drop_origin. cbn [n_origin_waiting set_waiting]. intros Hin [-> ->].
-  apply List.filter_In in Hin. destruct Hin as [_ E]. rewrite !Z.eqb_refl in E. discriminate.
+  unfold drop_origin. cbn [n_origin_waiting set_waiting]. intros Hin (-> & -> & ->).
+  apply List.filter_In in Hin. destruct Hin as [_ E]. unfold ow_key in E.
+  rewrite Nat.eqb_refl, !Z.eqb_refl in E. discriminate.
+Qed.
+(* ... and every other entry stays *)
+Lemma drop_origin_keeps n cid hbh e2e k h e x :
+  List.In (k, h, e, x) (n_origin_waiting n) -> ~ (k = cid /\ h = hbh /\ e = e2e) ->
+  List.In (k, h, e, x) (n_origin_waiting (drop_origin n cid hbh e2e)).
+Proof.
+  unfold drop_origin. cbn [n_origin_waiting set_waiting]. intros Hin Hne.
+  apply List.filter_In. split; [exact Hin|]. unfold ow_key.
+  destruct (Nat.eqb k cid) eqn:E1; [|reflexivity]. destruct (h =? hbh) eqn:E2; [|reflexivity].
+  destruct (e =? e2e) eqn:E3; [|reflexivity]. exfalso. apply Hne.
+  apply Nat.eqb_eq in E1. apply Z.eqb_eq in E2. apply Z.eqb_eq in E3. auto.
 Qed.
 
-(* C09: an answer that cannot be routed although some host was waiting for its pair (no connection
-   of that host, or the connection is not ready) releases the pair's entry of the origin table *)
-Theorem C09_unroutable_releases_origin n m :
+(* C09 (old statement, origin table keyed by the pair only; false for the table keyed by connection,
+   see ex_C09_unroutable_releases_origin_refuted below):
+     fst (route_answer n m) = None ->
+     List.find (fun e => mem_zz (o_hbh m, o_e2e m) (snd e)) (n_peer_waiting n) <> None ->
+     forall h e x, List.In (h, e, x) (n_origin_waiting (snd (route_answer n m))) ->
+                   ~ (h = o_hbh m /\ e = o_e2e m).
+   New: an answer that cannot be routed although a host was waiting for its pair AND a connection
+   with that host identity exists (which then is not ready) releases that connection's entry for
+   the pair; every other entry of the origin table stays. *)
+Theorem C09_unroutable_releases_origin n m host l c :
+  List.find (fun e => mem_zz (o_hbh m, o_e2e m) (snd e)) (n_peer_waiting n) = Some (host, l) ->
+  List.find (fun c => String.eqb (c_host c) host) (n_conns n) = Some c ->
   fst (route_answer n m) = None ->
-  List.find (fun e => mem_zz (o_hbh m, o_e2e m) (snd e)) (n_peer_waiting n) <> None ->
-  forall h e x, List.In (h, e, x) (n_origin_waiting (snd (route_answer n m))) ->
-                ~ (h = o_hbh m /\ e = o_e2e m).
+  is_ready_state (c_state c) = false /\
+  (forall k h e x, List.In (k, h, e, x) (n_origin_waiting (snd (route_answer n m))) ->
+                   ~ (k = c_id c /\ h = o_hbh m /\ e = o_e2e m)) /\
+  (forall k h e x, List.In (k, h, e, x) (n_origin_waiting n) ->
+                   ~ (k = c_id c /\ h = o_hbh m /\ e = o_e2e m) ->
+                   List.In (k, h, e, x) (n_origin_waiting (snd (route_answer n m)))).
 Proof.
-  unfold route_answer.
-  destruct (List.find _ (n_peer_waiting n)) as [[host l]|]; [|intros _ H; contradiction].
-  match goal with |- context [List.find ?f (n_conns ?x)] => destruct (List.find f (n_conns x)) as [c|] end.
-  - destruct (is_ready_state (c_state c)); [discriminate|].
-    intros _ _ h e x. cbn [snd]. apply drop_origin_none.
-  - intros _ _ h e x. cbn [snd]. apply drop_origin_none.
+  unfold route_answer. intros Ef Ec. rewrite Ef. cbn [n_conns set_waiting]. rewrite Ec.
+  destruct (is_ready_state (c_state c)); [discriminate|]. intros _. cbn [snd].
+  split; [reflexivity|]. split.
+  - intros k h e x. apply drop_origin_none.
+  - intros k h e x Hin Hne. apply drop_origin_keeps; assumption.
+Qed.
+
+(* when no connection carries the waiting host's identity the origin table is left as it is (the
+   entries of a connection leave with the connection, remove_conn) *)
+Theorem C09_unroutable_no_conn_keeps_origin n m host l :
+  List.find (fun e => mem_zz (o_hbh m, o_e2e m) (snd e)) (n_peer_waiting n) = Some (host, l) ->
+  List.find (fun c => String.eqb (c_host c) host) (n_conns n) = None ->
+  fst (route_answer n m) = None /\
+  n_origin_waiting (snd (route_answer n m)) = n_origin_waiting n.
+Proof.
+  unfold route_answer. intros Ef Ec. rewrite Ef. cbn [n_conns set_waiting]. rewrite Ec. split; reflexivity.
 Qed.
 
 (* ================================================================================== *)
@@ -1302,7 +1336,7 @@ Lemma send_message_conns n cid m :
 Proof.
   unfold send_message, queue_out. cbn [fst]. destruct (o_req m); [split; reflexivity|].
   unfold record_answer.
-  match goal with |- context [List.find ?f (n_origin_waiting ?x)] => destruct (List.find f (n_origin_waiting x)) as [[[a b] o]|] end;
+  match goal with |- context [List.find ?f (n_origin_waiting ?x)] => destruct (List.find f (n_origin_waiting x)) as [[[[k9 a] b] o]|] end;
     destruct (get_conn n cid); split; reflexivity.
 Qed.
 
@@ -1635,7 +1669,7 @@ Lemma send_message_answer_pw n cid a c :
   n_peer_waiting (fst (send_message n cid a)) = pw_remove (n_peer_waiting n) (c_host c) (o_hbh a, o_e2e a).
 Proof.
   intros Hq Hc. unfold send_message, queue_out. rewrite Hq, Hc. cbn [fst]. unfold record_answer.
-  match goal with |- context [List.find ?f (n_origin_waiting ?x)] => destruct (List.find f (n_origin_waiting x)) as [[[a0 b0] o0]|] end;
+  match goal with |- context [List.find ?f (n_origin_waiting ?x)] => destruct (List.find f (n_origin_waiting x)) as [[[[k9 a0] b0] o0]|] end;
     reflexivity.
 Qed.
 
@@ -2028,7 +2062,7 @@ Lemma send_message_keeps n cid m :
 Proof.
   unfold send_message, queue_out. cbn [fst]. destruct (o_req m); [repeat split; reflexivity|].
   unfold record_answer.
-  match goal with |- context [List.find ?f (n_origin_waiting ?x)] => destruct (List.find f (n_origin_waiting x)) as [[[a b] o]|] end;
+  match goal with |- context [List.find ?f (n_origin_waiting ?x)] => destruct (List.find f (n_origin_waiting x)) as [[[[k9 a] b] o]|] end;
     destruct (get_conn n cid); repeat split; reflexivity.
 Qed.
 
@@ -2406,6 +2440,25 @@ Example ex_C09_second_fails :
   /\ snd (step (fst (step ex_node [] (EAppAnswer 0 ex_ans))) [] (EAppAnswer 0 ex_ans)) = [ONotRoutable].
 Proof. vm_compute. repeat split. Qed.
 
+(* the old C09_unroutable_releases_origin ("no entry with the pair is left whenever a host was
+   waiting and the answer is not routable") is false now: with no connection of the waiting host
+   the table is left alone, and an entry of ANOTHER connection with the same pair stays anyway *)
+Definition ex_node_noconn : node :=
+  set_waiting (set_conns ex_node []) [] (n_peer_waiting ex_node) [(0%nat, 5, 9, "o")] [].
+Example ex_C09_unroutable_releases_origin_refuted :
+  ~ (forall n m,
+       fst (route_answer n m) = None ->
+       List.find (fun e => mem_zz (o_hbh m, o_e2e m) (snd e)) (n_peer_waiting n) <> None ->
+       forall k h e x, List.In (k, h, e, x) (n_origin_waiting (snd (route_answer n m))) ->
+                       ~ (h = o_hbh m /\ e = o_e2e m)).
+Proof.
+  intros H. apply (H ex_node_noconn ex_ans) with (k := 0%nat) (h := 5) (e := 9) (x := "o").
+  - vm_compute. reflexivity.
+  - vm_compute. discriminate.
+  - vm_compute. left. reflexivity.
+  - split; reflexivity.
+Qed.
+
 (* C09_removed_on_close *)
 Example ex_C09_removed_on_close : n_peer_waiting (remove_conn ex_node 0 R_GONE) = [].
 Proof. vm_compute. reflexivity. Qed.
@@ -2504,6 +2557,8 @@ Print Assumptions C09_second_fails.
 Print Assumptions C09_second_is_error.
 Print Assumptions C09_removed_on_close.
 Print Assumptions C09_unroutable_releases_origin.
+Print Assumptions C09_unroutable_no_conn_keeps_origin.
+Print Assumptions Examples.ex_C09_unroutable_releases_origin_refuted.
 Print Assumptions pw_add_nodup.
 Print Assumptions pw_remove_nodup.
 Print Assumptions route_request_spec.
